@@ -41,6 +41,7 @@ bool Value::extract_values(std::vector<std::vector<uint8_t>>& values, bool small
             // (numeric transforms only: elsewhere a value made of such bytes must stay distinguishable from an argument list)
             if (small_numbers && opcode == OP_0) { /* the empty vector: zero */ }
             else if (small_numbers && opcode >= OP_1 && opcode <= OP_16) vch.push_back((uint8_t)(opcode - (OP_1 - 1)));
+            else if (small_numbers && opcode == OP_1NEGATE) vch.push_back(0x81);
             else return false; // we only allow push operations here
         }
         values.push_back(vch);
@@ -291,7 +292,8 @@ std::vector<uint8_t> gen_taproot_tagged_hash(const std::string& tag, const std::
 
 void Value::do_tagged_hash() {
     std::vector<std::vector<uint8_t>> args;
-    if (!extract_values(args) || args.size() < 2) abort("invalid input (need at least two values: tag, msg[, msg2, ...])");
+    // (the empty message and the one-byte messages 0x01..0x10 and 0x81 arrive as OP_0, OP_1..OP_16 and OP_1NEGATE)
+    if (!extract_values(args, true) || args.size() < 2) abort("invalid input (need at least two values: tag, msg[, msg2, ...])");
     std::vector<uint8_t> msg = args[1];
     for (size_t i = 2; i < args.size(); ++i) msg.insert(msg.end(), args[i].begin(), args[i].end());
     if (args.size() > 2) fprintf(stderr, "msg = %s\n", HexStr(msg).c_str());
